@@ -3,7 +3,7 @@ FRAGMENT = {
  'C16': {'bin': 'w_c16',
  'world': 'c16',
  'level': 'fault_enumeration',
- 'quick': {'runs': 6000, 'budget_s': 28, 'workers': 16},
+ 'quick': {'runs': 12000, 'budget_s': 28, 'workers': 16},
  'thorough': {'runs': 400000, 'budget_s': 600, 'workers': 16, 'det_sample': 100},
  'level_text': 'per export: a fault-free pass counts the writes W the export issues to the target (write() for vbi_export_file, fopencookie write function and '
                'fwrite/vfprintf calls for vbi_export_stdio); then fault kinds (short write, write()=0 up to and beyond the retry limit, EINTR, EIO, ENOSPC, '
